@@ -1,8 +1,10 @@
 /- C15 driver: op lines in, observable lines out (same format as props/C15/harness.cpp).
 `c15`       — the model of the repaired tree (Model.lean)
-`c15 orig`  — reply parsing as in the unpatched tree (Orig.lean), for replaying the findings -/
+`c15 orig`  — reply parsing as in the unpatched tree (Orig.lean), for replaying the findings
+The state is the clock/lifetime layer's (`Clock.lean`): `tick` = `adv 1000`, `adv <ms>`, `destroy <n>`. -/
 import TboxModel.Util
 import TboxModel.C15.Model
+import TboxModel.C15.Clock
 import TboxModel.C15.Orig
 open Tbox.Util Tbox.C15
 
@@ -177,27 +179,60 @@ def sendStrs (st : St) (op : Op) (ret : Nat) : List String :=
 
 structure DSt where
   orig : Bool
-  st : St
+  c : CSt
+
+/-- `M udp=`: the loop watches the client's socket iff something is outstanding (`addRequest`: `udp_.enable()` on the
+first entry, `deleteRequest`: `udp_.disable()` with the last) -/
+def udpStr (c : CSt) : String := "M udp=" ++ (if c.st.reqs.isEmpty then "0" else "1")
+
+/-- branch tags of a clock advance -/
+def advTags (c : CSt) (ms : Nat) (c' : CSt) : String :=
+  let k := c'.st.now - c.st.now
+  "adv" ++ (if ms < 1000 then " adv-sub" else "") ++ (if ms % 1000 ≠ 0 then " adv-odd" else "") ++
+  (if ms ≥ 2147483648 then " adv-2^31" else "") ++ (if ms ≥ 4294967296 then " adv-2^32" else "") ++
+  (if ms ≥ 3600000 then " adv-hours" else "") ++
+  (if c.st.valueNumber = 0 then " adv-idle" else if k = 0 then " adv-nofire" else if k = 1 then " adv-fire1"
+   else if k ≤ 5 then " adv-catchup" else " adv-catchup-long") ++
+  (if c.st.valueNumber > 0 ∧ c'.st.valueNumber > 0 ∧ c'.deadline ≠ c.deadline + 1000 * k then " adv-rearmed" else "") ++
+  (if c.st.valueNumber > 0 ∧ c'.st.valueNumber = 0 then " adv-drained" else "")
 
 def stepLine (s : DSt) (line : String) : DSt × List String :=
   let ws := words line
+  let st := s.c.st
   match ws with
   | [] => (s, [])
-  | "case" :: _ => ({ s with st := init }, [line.trimAscii.toString])
-  | ["touch", w] => if w == "on" || w == "off" then (s, ["P ret=0"]) else (s, ["bad-op"])
+  | "case" :: _ => ({ s with c := cinit }, [line.trimAscii.toString])
+  | ["touch", w] => if w == "on" || w == "off" then (s, ["P ret=0", udpStr s.c]) else (s, ["bad-op"])
   | ["churn", w] =>
       match w.toNat? with
       | some n => if 1 ≤ n ∧ n ≤ 70000 then
-                    let (st', last) := churnLoop n s.st 0
-                    ({ s with st := st' }, ["B churn" ++ (if st'.alloc < s.st.alloc then " id-wrap" else ""), "P ret=" ++ toString last])
+                    let (st', last) := churnLoop n st 0
+                    let c' := rearm s.c st'
+                    ({ s with c := c' }, ["B churn" ++ (if st'.alloc < st.alloc then " id-wrap" else ""), "P ret=" ++ toString last, udpStr c'])
                   else (s, ["bad-op"])
       | none => (s, ["bad-op"])
   | ["burst", w] =>
       match w.toNat? with
       | some n => if 1 ≤ n ∧ n ≤ 70000 then
-                    let (st', last) := burstLoop n s.st 0
-                    ({ s with st := st' }, ["B burst", "P ret=" ++ toString last])
+                    let (st', last) := burstLoop n st 0
+                    let c' := rearm s.c st'
+                    ({ s with c := c' }, ["B burst", "P ret=" ++ toString last, udpStr c'])
                   else (s, ["bad-op"])
+      | none => (s, ["bad-op"])
+  | ["adv", w] =>
+      match w.toNat? with
+      | some ms => if ms < 17179869184 ∧ !s.orig then
+                     let (c', o) := cstep s.c (.advance ms)
+                     ({ s with c := c' }, ["B " ++ advTags s.c ms c' ++ " " ++ eventTags o.events, "P ret=0"] ++ o.events.flatMap eventStrs ++ [udpStr c'])
+                   else (s, ["bad-op"])
+      | none => (s, ["bad-op"])
+  | ["destroy", w] =>
+      match small? w 4 with
+      | some n => if s.orig then (s, ["bad-op"]) else
+                  let (c', _) := cstep s.c (.destroy n)
+                  ({ s with c := c' }, ["B destroy" ++ (if st.reqs.isEmpty then " destroy-idle" else " destroy-pending") ++
+                                         (if st.valueNumber > 0 then " destroy-armed" else "") ++ (if n = 0 then " ctor1" else ""),
+                                        "P ret=0", "M released=1", udpStr c'])
       | none => (s, ["bad-op"])
   | _ =>
     match parseOp ws with
@@ -206,17 +241,17 @@ def stepLine (s : DSt) (line : String) : DSt × List String :=
       if s.orig then
         match op with
         | .recv d =>
-            match Orig.onRecv s.st d with
-            | .inl what => (s, ["B orig", "P ret=0", "P " ++ what])
-            | .inr (st', es) => ({ s with st := st' }, ["B orig", "P ret=0"] ++ es.flatMap eventStrs)
+            match Orig.onRecv st d with
+            | .inl what => (s, ["B orig", "P ret=0", "P " ++ what, udpStr s.c])
+            | .inr (st', es) => ({ s with c := rearm s.c st' }, ["B orig", "P ret=0"] ++ es.flatMap eventStrs ++ [udpStr (rearm s.c st')])
         | _ =>
-            let (st', o) := step s.st op
-            ({ s with st := st' }, ["P ret=" ++ toString o.ret] ++ o.events.flatMap eventStrs)
+            let (c', o) := cstep s.c (.base op)
+            ({ s with c := c' }, ["P ret=" ++ toString o.ret] ++ o.events.flatMap eventStrs ++ [udpStr c'])
       else
-        let (st', o) := step s.st op
-        ({ s with st := st' },
-         ["B " ++ opTags s.st op ++ " " ++ eventTags o.events, "P ret=" ++ toString o.ret] ++ sendStrs s.st op o.ret ++
-         o.events.flatMap eventStrs)
+        let (c', o) := cstep s.c (.base op)
+        ({ s with c := c' },
+         ["B " ++ opTags st op ++ " " ++ eventTags o.events, "P ret=" ++ toString o.ret] ++ sendStrs st op o.ret ++
+         o.events.flatMap eventStrs ++ [udpStr c'])
 
 def main (args : List String) : IO Unit :=
-  runDriver { orig := args.contains "orig", st := init } stepLine
+  runDriver { orig := args.contains "orig", c := cinit } stepLine
